@@ -1509,6 +1509,76 @@ impl Real {
                     format!("{a} {b}")
                 }
             }
+            ("othermgr", 2) => {
+                // A SECOND manager of the same kind on the same thread, between two uses of the main
+                // one: same number of variables, same gc count, other functions in the same low node
+                // slots, each referenced twice, counted with the same `vars`. Anything the wrapper
+                // layer keeps between calls (a cache keyed by node id, say) must not leak from one
+                // manager into the other. The main manager is not touched.
+                let vars = num(w[1])?;
+                let nv = n.max(2);
+                let tm = unsafe { (api.manager_new)(1 << 12, 1024, 1) };
+                if tm.p.is_null() {
+                    rep.fail("capi-manager-null", "manager_new returned an invalid manager");
+                    return None;
+                }
+                unsafe { (api.add_vars)(tm, nv) };
+                let target = unsafe { (api.gc_count)(cm) };
+                let mut guard = 0;
+                while unsafe { (api.gc_count)(tm) } < target && guard < 64 {
+                    unsafe { (api.gc)(tm) };
+                    guard += 1;
+                }
+                let nat_str = |f: CF| -> String {
+                    let nat = unsafe { (api.sat_count)(f, vars) };
+                    let st = unsafe { (ld.common.natural_to_string)(&nat) };
+                    let ns = unsafe { std::slice::from_raw_parts(st.data as *const u8, st.len) };
+                    let ns = String::from_utf8_lossy(ns).into_owned();
+                    unsafe {
+                        (ld.common.string_free)(st);
+                        (ld.common.natural_free)(nat);
+                    }
+                    ns
+                };
+                let mut held: Vec<CF> = Vec::new();
+                if vars >= nv && vars <= 100 {
+                    for i in 0..nv.min(4) {
+                        for j in (i + 1)..nv.min(4) {
+                            let (xi, xj) = unsafe { ((api.var)(tm, i), (api.var)(tm, j)) };
+                            for (name, f2) in api.bin.iter() {
+                                let quarter: u128 = match *name {
+                                    "and" => 1,
+                                    "or" => 3,
+                                    "xor" => 2,
+                                    _ => continue,
+                                };
+                                let f = unsafe { f2(xi, xj) };
+                                if !f.ok() {
+                                    continue;
+                                }
+                                held.push(unsafe { (api.fref)(f) });
+                                held.push(f);
+                                let expect: u128 = quarter << (vars - 2);
+                                let got = nat_str(f);
+                                let d = unsafe { (api.sat_count_double)(f, vars) };
+                                if got != expect.to_string() || d != expect as f64 {
+                                    rep.fail("capi-differs", &format!("`{line}`: in a second manager on the same thread sat_count(x{i} {name} x{j}, {vars}) = {got} / {d:e}, expected {expect}"));
+                                }
+                                rep.count("othermgr_counts");
+                            }
+                            unsafe {
+                                (api.funref)(xi);
+                                (api.funref)(xj);
+                            }
+                        }
+                    }
+                }
+                for f in held {
+                    unsafe { (api.funref)(f) };
+                }
+                unsafe { (api.manager_unref)(tm) };
+                "ok".to_string()
+            }
             ("count", 2) | ("sat", 2) | ("valid", 2) | ("pickvec", 2) | ("level", 2) | ("nvar", 2) | ("show", 2) | ("tt", 2) | ("satcount", 3) | ("eval", 3) => {
                 let (c, r) = self.get(w[1])?;
                 if !c.ok() {
@@ -2704,7 +2774,15 @@ impl<'a> Gen<'a> {
                     0 => format!("count {a}"),
                     1 => format!("sat {a}"),
                     2 => format!("valid {a}"),
-                    3 => format!("satcount {a} {}", self.n + if zbdd { 0 } else { self.rng.below(3) as u32 }),
+                    3 => {
+                        let vars = self.n + if zbdd { 0 } else { self.rng.below(3) as u32 };
+                        if self.rng.below(2) == 0 {
+                            // the same count before and after a second manager was used on this thread
+                            self.emit(&format!("satcount {a} {vars}"));
+                            self.emit(&format!("othermgr {vars}"));
+                        }
+                        format!("satcount {a} {vars}")
+                    }
                     4 => format!("pickvec {a}"),
                     5 => format!("eval {a} {}", self.bits()),
                     6 => format!("level {a}"),
